@@ -13,7 +13,8 @@ import itertools
 
 from vlib import core, corr
 
-DEPENDS = ["TlsDispatch (generated)", "TlsSM", "TlsSMProofs", "C11"]
+DEPENDS = ["TlsDispatch (generated)", "TlsSM", "TlsSMProofs", "TlsQuicGen (generated)", "TlsQuic", "StreamRecv (C10 model, read-only)", "C11"]
+GENERATORS = ["c11_dispatch", "c11_quic"]
 TRUSTED_BASE = [
     "tools/gen/c11_dispatch.py (Python-ast translator of the dispatch chain, enum values and handler skeletons; fail closed)",
     "extraction (ExtrOcamlBasic only) + coq/extract/driver.ml for running exec_tlssm",
@@ -21,11 +22,20 @@ TRUSTED_BASE = [
     "declares for each message it builds (mac_ok, sig_ok, cert verdict, parse_ok, psk_selected ...)",
     "modelled, not verified: tls.Context handlers as Gallina functions over oracle booleans; cryptography, message parsing, "
     "X.509 validation, key derivation and transcript hashing are outside the model",
+    "tools/gen/c11_quic.py (ast translator: constants, get_epoch, CRYPTO frame epochs, statement skeletons of _handle_crypto_frame, "
+    "_update_traffic_key, _discard_epoch, handle_message; fail closed) + the pin proofs/TlsQuicSkel.v",
+    "harness/props/c11_quic.py + harness/sim (virtual network, wire observer with the endpoints' key logs, peer puppet): the QUIC-level "
+    "adversary, its own reassembly bookkeeping that orders the oracle records, and the observation of the victim (qlog packet_received / "
+    "packet_dropped, close event, Context.state, CryptoPair.is_valid, len(_receive_buffer))",
+    "modelled, not verified: QuicConnection.receive_datagram / _payload_received / _handle_crypto_frame / _update_traffic_key / the key-discarding "
+    "part of datagrams_to_send as coq/model/TlsQuic.v; packet protection and everything the victim sends are outside that model",
 ]
 ASSUMPTIONS = [
     "message type is one byte (0 <= t < 256), as read from the receive buffer",
     "one complete handshake message per handle_message call (reassembly is exercised by the harness, not modelled)",
     "oracle booleans stand for MAC / signature / certificate / parse checks (correctness of those primitives is outside C11)",
+    "connection level: the peer holds all keys (a packet is either decryptable by the victim or dropped); CRYPTO stream bytes are bytes "
+    "(0..255) -- premise bytes_ok of fragmentation_independent; that theorem is about the frames of one packet",
 ]
 
 SIG_ALG = 0x0403  # ECDSA_SECP256R1_SHA256
@@ -830,7 +840,8 @@ class OracleOnly(corr.Suite):
 
 
 def is_stale(ctx):
-    return any("c11_dispatch" in g or "c11_quic" in g for g in ((ctx.build or {}).get("gen_errors") or []))
+    names = [str(g.get("gen", "")) if isinstance(g, dict) else str(g) for g in ((ctx.build or {}).get("gen_errors") or [])]
+    return any("c11_dispatch" in n or "c11_quic" in n for n in names)
 
 
 def suites(ctx):
